@@ -23,6 +23,10 @@ CHECKS = {
    text="Seeded exploration of generated channel/filter configurations booted through the real Run() wiring: 1-3 interleaved sender actors (and a real redis connection) put events on the bus handle that services receive; per-channel delivery lists recorded by capture channels are compared with a reference model of the filter rule (counts per admitting filter occurrence, per-sender order, token on every event), with a slow-channel fault, and with the metamorphic check that removing one channel leaves the others' lists unchanged.",
    ref="§3 C06", tech=TECH + "reference-model oracle over per-channel delivery histories + metamorphic channel removal; slow-channel fault",
    note="The bus is a synchronous fan-out: the schedule dimension (interleaved senders, slow channel) is thin, the configuration x event dimension is what is explored."),
+ "C07": dict(
+   text="Seeded exploration of the real file channel behind the real Run() wiring on a real temp directory under the fake clock: 1-3 interleaved senders with line lengths steered around the rotation boundary (max size 1024/4096/1 MiB, single lines larger than the limit, 500 KiB bursts), flushes by timer or by size, several rotations within one simulated second, and an external actor that removes/renames the active file or the directory, or an unwritable destination. After quiescence every file is read back: every line must parse, the multiset of serials must equal the events sent (relaxed narrowly around external faults), no multi-line file may exceed the limit, rotated files never change once seen (checked after every step), every Send must have returned.",
+   ref="§3 C07", tech=TECH + "durability/exactly-once oracle over the files read back + step invariant on rotated files + bounded-liveness of Send; external filesystem faults",
+   note="Real file I/O on a temp dir (synchronous, deterministic); power loss and torn writes are not simulated."),
 }
 NA = {
  "C17": "pure functions of a byte buffer (decoder methods, ipp decode/encode): no schedule, clock, fault or interleaving to simulate (DESIGN §4)",
